@@ -230,7 +230,7 @@ pub fn judge(c: &Case, r: &RunResult, rec: &CaseRec) -> Check {
         let delivered = r.events.iter().filter(|e| matches!(e.kind, EvKind::Msg(_))).count();
         if quiescent_stall(r, std::time::Duration::from_secs(5)) {
             // nothing but heartbeats for >= 12 RTO-max: a definitive stall, not slowness
-            return Err(Fail::new(
+            return Err(Fail::stall(
                 format!("{}:quiescent", sig),
                 format!(
                     "no closure reported, only {}/{} messages delivered (senders_done={}) and the association has been silent (heartbeats only) for {:.1}s; A: {} | B: {}; trace: {}",
@@ -363,7 +363,7 @@ pub fn run(ctx: &mut Ctx) {
         for (c, (rec, mut res)) in results {
             let v = serde_json::to_value(&c).unwrap();
             if let Err(f) = &res {
-                if f.timing {
+                if f.timing || f.stall {
                     // DESIGN 2.6: must repeat alone
                     let mut again = Err(f.clone());
                     for _ in 0..3 {
